@@ -634,6 +634,11 @@ pub fn run_c01(a: &Args, shared: &SharedReport) {
                         }
                     }
                 }
+                if !th && idx % 16 == 3 && orc.size() >= 3 {
+                    // a free-running sample of the multi-threaded configurations (their schedules are E2's)
+                    cfgs.push(Config { threads: 2, block: Some(1), ..Config::plain(st.clone()) });
+                    cfgs.push(Config { threads: 3, block: Some(1), ..Config::plain(st.clone()) });
+                }
                 for cfg in cfgs {
                     run.case(&m, &orc, &cfg, None);
                 }
@@ -688,6 +693,10 @@ pub fn run_c02(a: &Args, shared: &SharedReport) {
                         }
                         for st in strategies {
                             run.case(&m, &orc, &Config::plain(st.clone()), None);
+                            if (m1 * 5 + m2) % 8 == 1 {
+                                // blocks of one state: the worker goes back to the market after every state
+                                run.case(&m, &orc, &Config { block: Some(1), ..Config::plain(st.clone()) }, None);
+                            }
                             if th && (m1 * 7 + m2) % 4 == 0 {
                                 for t in [2usize, 3] {
                                     run.case(&m, &orc, &Config { threads: t, block: Some(1), ..Config::plain(st.clone()) }, None);
